@@ -182,13 +182,16 @@ func build(tier string) []*vkit.Scenario {
 	thorough := tier == "thorough"
 	var out []*vkit.Scenario
 	ks := []int{2, 3}
+	if thorough {
+		ks = []int{1, 2, 3, 5}
+	}
 	for _, m := range ekit.Modes {
 		for _, unix := range []bool{false, true} {
 			for _, k := range ks {
 				for _, o := range []string{"onopen", "ondata", "after", "race", "two", "sendfile", "rw"} {
-					p, d := 2, 1
+					p, d := 3, 2
 					if thorough {
-						p, d = 3, 2
+						p, d = 4, 3
 					}
 					c := cfg{mode: m, unix: unix, k: k, origin: o, p: p, d: d}
 					out = append(out, &vkit.Scenario{Name: c.name(), Body: body(c), Check: check, P: p, D: d,
